@@ -168,6 +168,20 @@ claim('C06',
       'L <= 3 (d = 2: 5) because TLC contracts d^L x d^L matrices; complex Gaussian-integer coefficient vectors for the '
       'linear fermionic operators; Jordan-Wigner convention: Z string to the right, as linear_fermionic_mpo documents by '
       'construction.')
+claim('C07',
+      'TLC trace validation (TraceHamiltonian.tla): for n <= 4 orbitals (spinless) / n <= 2 (spin-orbital) TLC contracts the '
+      'returned tensors and compares with the second-quantized operator MolTerms / SpinMolTerms of Hamiltonian.tla (fermionic '
+      'operators on occupation configurations), and compares the two build paths; for larger n the same definition is '
+      'evaluated by the harness in exact integer arithmetic (harness/fock.py) and enters the trace as flags; gauge transform '
+      'as mode-N flags',
+      'The L sweep (1..6 spinless optimized, 4..6 explicit; 1..3 spin optimized, 2..5 explicit) with unit, dense, symmetric, '
+      'zero-padded, exchange-only, sparse and Gaussian-integer coefficient tensors checks Mat(MPO) = Mol(t, v) exactly, '
+      'optimized = explicit wherever both exist, block sparsity, and treats any exception inside the documented domain as '
+      'a rejected event (findings F1 at L = 1 and F2 at L >= 5 are regressions of this kind). The gauge matrices are '
+      'checked for every rotated pair at L = 4..7 (8 in the thorough tier) with real, rational, Gaussian and generic '
+      'complex unitaries.',
+      'TLC-exact only up to 16 x 16 Fock matrices; beyond that the oracle is the harness transcription of the same '
+      'definition (integer exact); gauge clause tolerance 1e-9.')
 
 def main():
     props = [json.loads(l) for l in open(os.path.join(VERIF, 'properties.jsonl'))]
